@@ -17,7 +17,6 @@ class P(framework.Prop):
             "over the whole i32 range; non-arrays; a case is non-trivial when the selected list is non-empty")
     assumptions = ["array length < 2^31 (the `len as i32` cast)", "step 0 is rejected by the interpreter before slice() is called (covered by the evalast stream of C01)"]
     release_too = True
-    has_props = False
 
     def cases(self, rng, tier):
         out = []
